@@ -510,7 +510,28 @@ def canon(e):
         if new == e:
             break
         e = new
-    return sp.expand(e)
+    return sp.expand(_bound_names(sp.expand(e)))
+
+
+def _sum_height(f):
+    inner = [x for a in f.args for x in a.atoms(sp.Sum)]
+    return 1 + max((_sum_height(x) for x in inner), default=-1)
+
+
+def _bound_names(e):
+    """Summation variables are bound: name them by the nesting height of their Sum, so that two closed forms that
+    differ only in the name of a loop variable are the same expression."""
+
+    def ren(f):
+        h = _sum_height(f)
+        body, lims = f.function, []
+        for n_, lim in enumerate(f.limits):
+            b = sp.Symbol(f"_b{h}" + (f"_{n_}" if n_ else ""), integer=True)
+            body = body.xreplace({lim[0]: b})
+            lims.append((b,) + tuple(lim[1:]))
+        return sp.Sum(body, *lims)
+
+    return e.replace(lambda f: isinstance(f, sp.Sum), ren)
 
 
 def same(a, b):
